@@ -1,378 +1,1 @@
-/-
-  C01 (apply_patch level) — applying a diff reproduces the new file exactly.
--/
-import PatchModel.Spec.Script
-import PatchModel.Lemmas.Valid
-import Wip.C03
-namespace PatchModel.C01
-open PatchModel PatchModel.Script
-
-/-! ### helpers: the locator and the hunk loop on a valid script -/
-
-theorem lines_ne_nil_of_count {h : Hunk} (hw : h.WF) (hc : h.old.count ≠ 0) : h.lines ≠ [] := by
-  intro e
-  apply hc
-  rw [hw.2.1, e]; rfl
-
-/-- under the head conditions of `Valid` the locator returns the stated place, fuzz 0, offset 0 -/
-theorem locate_inplace (file : List Line) (h : Hunk) (iw : Bool) (maxFuzz : Int) (c p : Nat)
-    (hw : h.WF) (hp : h.pos0 = (p : Int)) (hcp : c ≤ p)
-    (hold : (file.drop p).take (oldOf h.lines).length = oldOf h.lines)
-    (hfit : p + (oldOf h.lines).length ≤ file.length)
-    (hex : ¬ (h.old.count = 0 ∧ h.old.start = 0 ∧ file ≠ []))
-    (hF : 0 ≤ maxFuzz) :
-    locateHunk file h iw 0 maxFuzz c = some ⟨p, 0, 0⟩ := by
-  have hg : expectedLine h - 1 + 0 = (p : Int) := by
-    unfold Hunk.pos0 at hp; omega
-  by_cases hc : h.old.count = 0
-  · exact C03.locate_insertion_exact file h iw 0 maxFuzz c p hc hg hcp (by omega)
-      (fun hh => hex ⟨hc, hh.1, hh.2⟩)
-  · exact C03.locate_exact file h iw 0 maxFuzz c p hw hc hg hcp
-      (admissible_of_inplace file h iw maxFuzz p hF (lines_ne_nil_of_count hw hc) hold hfit)
-
-/-- the placements a valid script states, numbered from `num` -/
-def statedFrom (num : Nat) (hs : List Hunk) : List (Nat × Location) :=
-  (hs.zipIdx num).map fun (h, i) => (i, ⟨h.pos0, 0, 0⟩)
-
-/-- the hunk loop on a valid script: every hunk is written at its stated place -/
-theorem applyRest_valid (file : List Line) (o : ApplyOpts) (pt : Patch)
-    (hD : o.define = []) (hF : 0 ≤ o.maxFuzz) :
-    ∀ (c : Nat) (d : Int) (hs : List Hunk), Valid file c d hs →
-    ∀ (s : AState) (num : Nat), s.cursor = c → s.offErr = 0 → s.skip = false →
-    ∃ s', applyRest file o pt s num hs = .ok s' ∧
-      (s'.out ++ copyRange file s'.cursor (file.length - s'.cursor)).map Out.line =
-        s.out.map Out.line ++ splice file c hs ∧
-      s'.rejected = s.rejected ∧ s'.rejBytes = s.rejBytes ∧ s'.perfect = s.perfect ∧ s'.skip = false ∧
-      s'.applied = s.applied ++ statedFrom num hs ∧
-      (o.verbose = false → s'.msgs = s.msgs) ∧ s.msgs <+: s'.msgs ∧ s'.tty = s.tty := by
-  intro c d hs hv
-  induction hv with
-  | nil c d hc =>
-    intro s num hcur _ hsk
-    refine ⟨s, rfl, ?_, rfl, rfl, rfl, hsk, by simp [statedFrom], fun _ => rfl, List.prefix_refl _, rfl⟩
-    rw [List.map_append, copyRange_map_line, hcur, splice]
-    rw [List.take_of_length_le (by simp)]
-  | cons c d h hs p hw hp hcp hold hfit hnew hex hv' ih =>
-    intro s num hcur hoff hsk
-    have hloc := locate_inplace file h o.ignoreWhitespace o.maxFuzz c p hw hp hcp hold hfit hex hF
-    obtain ⟨s1, e1, a1, a2, a3, a4, a5, a6, a7, a8, a9, a10, a11, _⟩ :=
-      finishHunk_inplace file o pt s num h p hD hsk hw.1 hfit
-    obtain ⟨s2, e2, b1, b2, b3, b4, b5, b6, b7, b8, b9⟩ := ih s1 (num + 1) a2 (a3.trans hoff) a4
-    refine ⟨s2, ?_, ?_, b2.trans a7, b3.trans a6, b4.trans a5, b5, ?_,
-      fun hv => (b7 hv).trans (a9 hv), a10.trans b8, b9.trans a11⟩
-    · simp only [applyRest, hoff, hcur, hloc, e1, e2]
-    · have hp0 : h.pos0.toNat = p := by rw [hp]; simp
-      rw [b1, a1, splice, hp0, hcur]
-      simp only [List.map_append, copyRange_map_line,
-        hunkOutput_map_line file h.lines p hw.1 hold hfit, List.append_assoc]
-    · rw [b6, a8]
-      simp [statedFrom, List.zipIdx_cons, hp]
-
-
-/-- the placements a valid script states: hunk i at its stated line, fuzz 0, offset 0 -/
-def statedPlacements (hs : List Hunk) : List (Nat × Location) :=
-  hs.zipIdx.map fun (h, i) => (i, ⟨h.pos0, 0, 0⟩)
-
-/-- the `finish` closure of `applyPatch` -/
-def finishRes (file : List Line) (p : Patch) (s : AState) : ApplyResult :=
-  { out := s.out ++ copyRange file s.cursor (file.length - s.cursor), rejBytes := s.rejBytes,
-    failed := s.rejected.length, skipped := s.skip, perfect := s.perfect, rejected := s.rejected,
-    applied := s.applied, msgs := s.msgs, patch := p, tty := s.tty }
-
-/-- the first iteration (done separately by `apply_patch`) followed by the loop is the loop from hunk 0 -/
-theorem first_then_rest {α : Type} (file : List Line) (o : ApplyOpts) (pt : Patch) (s : AState) (h0 : Hunk)
-    (rest : List Hunk) (F : AState → α) :
-    (match finishHunk file o pt s 0 h0 (locateHunk file h0 o.ignoreWhitespace s.offErr o.maxFuzz s.cursor) with
-      | .error e => (Except.error e : Except Exn α)
-      | .ok s2 => match applyRest file o pt s2 1 rest with
-        | .error e => .error e
-        | .ok s3 => .ok (F s3)) =
-    (match applyRest file o pt s 0 (h0 :: rest) with
-      | .error e => .error e
-      | .ok s3 => .ok (F s3)) := by
-  simp only [applyRest]
-  cases finishHunk file o pt s 0 h0 _ <;> rfl
-
-/-- `apply_patch` on a valid script (with or without -R: `hs` is the script after the optional reversal) -/
-theorem applyPatch_valid (file : List Line) (hs : List Hunk) (p0 : Patch) (o : ApplyOpts) (tty : Option (List Bool))
-    (hv : Valid file 0 0 hs) (hp : (if o.reverse then reversePatch p0 else p0).hunks = hs)
-    (hD : o.define = []) (hF : 0 ≤ o.maxFuzz) :
-    ∃ r, applyPatch file p0 o tty = .ok r ∧
-      r.out.map Out.line = splice file 0 hs ∧
-      r.rejected = [] ∧ r.failed = 0 ∧ r.rejBytes = [] ∧ r.perfect = true ∧ r.skipped = false ∧
-      r.applied = statedPlacements hs ∧
-      (o.verbose = false → r.msgs = []) ∧ r.tty = tty ∧
-      r.patch = (if o.reverse then reversePatch p0 else p0) := by
-  unfold applyPatch
-  simp only []
-  generalize (if o.reverse = true then reversePatch p0 else p0) = p at hp ⊢
-  cases hs with
-  | nil =>
-    rw [hp]
-    refine ⟨_, rfl, ?_⟩
-    simp [copyRange_map_line, splice, statedPlacements]
-  | cons h0 rest =>
-    rw [hp]
-    simp only []
-    cases hv with
-    | cons _ _ _ _ q hw hq hcq hold hfit hnew hex hv' =>
-    have hloc := locate_inplace file h0 o.ignoreWhitespace o.maxFuzz 0 q hw hq hcq hold hfit hex hF
-    have hsc : shouldCheckReversed (some ⟨q, 0, 0⟩) o = false := by simp [shouldCheckReversed]
-    rw [hloc, hsc]
-    simp only [Bool.false_eq_true, if_false]
-    obtain ⟨s3, e, b1, b2, b3, b4, b5, b6, b7, b8, b9⟩ :=
-      applyRest_valid file o p hD hF 0 0 (h0 :: rest)
-        (Valid.cons 0 0 h0 rest q hw hq hcq hold hfit hnew hex hv') ({ tty := tty } : AState) 0 rfl rfl rfl
-    have := first_then_rest file o p ({ tty := tty } : AState) h0 rest
-      (finishRes file p)
-    simp only [hloc] at this
-    refine ⟨finishRes file p s3, ?_, ?_, b2, ?_, b3, b4, b5, ?_, ?_, b9, rfl⟩
-    · refine Eq.trans this ?_
-      rw [e]
-    · simpa [finishRes] using b1
-    · simp [finishRes, b2]
-    · simpa [finishRes, statedFrom, statedPlacements] using b6
-    · intro hvb; exact b7 hvb
-
-/-- **C01 core**: for every file and every valid script (a diff of that file: any number of hunks, any context
-    width, missing final newlines, repeated lines elsewhere in the file), with any `-F ≥ 0`, with or without `-l`,
-    `-N`, `-t`, `-f`, any newline mode, with or without a tty: `apply_patch` returns, its output is exactly the
-    intended new file, every hunk lands at its stated line with fuzz 0 and offset 0 (even when the same text also
-    occurs elsewhere), nothing is rejected, no question is asked, and nothing is printed unless --verbose. -/
-theorem C01_core (file : List Line) (hs : List Hunk) (p0 : Patch) (o : ApplyOpts) (tty : Option (List Bool))
-    (hv : Valid file 0 0 hs) (hp : p0.hunks = hs)
-    (hD : o.define = []) (hR : o.reverse = false) (hF : 0 ≤ o.maxFuzz) :
-    ∃ r, applyPatch file p0 o tty = .ok r ∧
-      r.out.map Out.line = splice file 0 hs ∧
-      r.rejected = [] ∧ r.failed = 0 ∧ r.rejBytes = [] ∧ r.perfect = true ∧ r.skipped = false ∧
-      r.applied = statedPlacements hs ∧
-      (o.verbose = false → r.msgs = []) ∧ r.tty = tty := by
-  obtain ⟨r, h1, h2, h3, h4, h5, h6, h7, h8, h9, h10, _⟩ :=
-    applyPatch_valid file hs p0 o tty hv (by simp [hR, hp]) hD hF
-  exact ⟨r, h1, h2, h3, h4, h5, h6, h7, h8, h9, h10⟩
-
-/-- bytes level: the output file is the rendering of the intended new file -/
-theorem C01_bytes (file : List Line) (hs : List Hunk) (p0 : Patch) (o : ApplyOpts) (tty : Option (List Bool))
-    (hv : Valid file 0 0 hs) (hp : p0.hunks = hs)
-    (hD : o.define = []) (hR : o.reverse = false) (hF : 0 ≤ o.maxFuzz) :
-    ∃ r, applyPatch file p0 o tty = .ok r ∧
-      render o.newlineOutput r.out = renderLines o.newlineOutput (splice file 0 hs) := by
-  obtain ⟨r, h1, h2, _⟩ := C01_core file hs p0 o tty hv hp hD hR hF
-  exact ⟨r, h1, by rw [render, h2]⟩
-
-/-! ### non-vacuity: a valid script exists for every pair of files -/
-
-def commonPrefixLen : List Line → List Line → Nat
-  | a :: as, b :: bs => if a = b then commonPrefixLen as bs + 1 else 0
-  | _, _ => 0
-
-/-- one hunk: common prefix and suffix trimmed, no context — except that a pure insertion at the very top of a
-    non-empty file carries the first old line as context (the zero-context form of it is known finding D2) -/
-def diffTrim (a b : List Line) : List Hunk :=
-  if a = b then [] else
-  let pre := commonPrefixLen a b
-  let a' := a.drop pre
-  let b' := b.drop pre
-  let suf := commonPrefixLen a'.reverse b'.reverse
-  let dels := a'.take (a'.length - suf)
-  let adds := b'.take (b'.length - suf)
-  if pre = 0 ∧ dels = [] ∧ a ≠ [] then
-    -- insertion at the top of a non-empty file: keep one line of trailing context
-    match a with
-    | first :: _ =>
-      [{ old := ⟨1, 1⟩, new := ⟨1, adds.length + 1⟩,
-         lines := adds.map (⟨PLUS, ·⟩) ++ [⟨SP, first⟩] }]
-    | [] => []
-  else
-    [{ old := ⟨if dels = [] then pre else pre + 1, dels.length⟩,
-       new := ⟨if adds = [] then pre else pre + 1, adds.length⟩,
-       lines := dels.map (⟨MINUS, ·⟩) ++ adds.map (⟨PLUS, ·⟩) }]
-
-theorem cpl_le : ∀ (a b : List Line), commonPrefixLen a b ≤ a.length ∧ commonPrefixLen a b ≤ b.length
-  | [], _ => by simp [commonPrefixLen]
-  | _ :: _, [] => by simp [commonPrefixLen]
-  | x :: as, y :: bs => by
-    have := cpl_le as bs
-    simp only [commonPrefixLen]
-    split <;> simp <;> omega
-
-theorem cpl_take : ∀ (a b : List Line), a.take (commonPrefixLen a b) = b.take (commonPrefixLen a b)
-  | [], _ => by simp [commonPrefixLen]
-  | _ :: _, [] => by simp [commonPrefixLen]
-  | x :: as, y :: bs => by
-    have := cpl_take as bs
-    simp only [commonPrefixLen]
-    split
-    · next h => simp [h, this]
-    · simp
-
-theorem oldOf_dels_adds (D A : List Line) :
-    oldOf (D.map (⟨MINUS, ·⟩) ++ A.map (⟨PLUS, ·⟩)) = D := by
-  induction D with
-  | nil =>
-    induction A with
-    | nil => rfl
-    | cons x A ih => simp [oldOf]
-  | cons x D ih => simp only [List.map_cons, List.cons_append]; rw [oldOf_cons_minus rfl, ih]
-
-theorem newOf_dels_adds (D A : List Line) :
-    newOf (D.map (⟨MINUS, ·⟩) ++ A.map (⟨PLUS, ·⟩)) = A := by
-  induction D with
-  | nil =>
-    induction A with
-    | nil => rfl
-    | cons x A ih => simp only [List.map_cons, List.map_nil, List.nil_append] at ih ⊢; rw [newOf_cons_plus rfl, ih]
-  | cons x D ih => simp only [List.map_cons, List.cons_append]; rw [newOf_cons_minus rfl, ih]
-
-theorem opsOK_dels_adds (D A : List Line) : OpsOK (D.map (⟨MINUS, ·⟩) ++ A.map (⟨PLUS, ·⟩)) := by
-  intro pl hpl
-  rcases List.mem_append.1 hpl with h | h
-  · obtain ⟨_, _, rfl⟩ := List.mem_map.1 h; right; right; rfl
-  · obtain ⟨_, _, rfl⟩ := List.mem_map.1 h; right; left; rfl
-
-theorem valid_single (a P D A S : List Line) (ha : a = P ++ D ++ S)
-    (hex : ¬ (D = [] ∧ P = [] ∧ a ≠ [])) :
-    let h : Hunk := { old := ⟨if D = [] then P.length else P.length + 1, D.length⟩,
-                      new := ⟨if A = [] then P.length else P.length + 1, A.length⟩,
-                      lines := D.map (⟨MINUS, ·⟩) ++ A.map (⟨PLUS, ·⟩) }
-    Valid a 0 0 [h] ∧ splice a 0 [h] = P ++ A ++ S := by
-  intro h
-  have ho : oldOf h.lines = D := oldOf_dels_adds D A
-  have hn : newOf h.lines = A := newOf_dels_adds D A
-  have hpos : h.pos0 = (P.length : Int) := by
-    show (if ((D.length : Nat) : Int) = 0 then (if D = [] then (P.length : Int) else P.length + 1) + 1
-      else (if D = [] then (P.length : Int) else P.length + 1)) - 1 = _
-    cases D <;> simp <;> omega
-  have hnpos : h.newPos0 = (P.length : Int) := by
-    show (if ((A.length : Nat) : Int) = 0 then (if A = [] then (P.length : Int) else P.length + 1) + 1
-      else (if A = [] then (P.length : Int) else P.length + 1)) - 1 = _
-    cases A <;> simp <;> omega
-  constructor
-  · refine Valid.cons 0 0 h [] P.length ⟨opsOK_dels_adds D A, by rw [ho], by rw [hn]⟩ hpos (Nat.zero_le _)
-      ?_ ?_ (by rw [hnpos]; omega) ?_ (Valid.nil _ _ ?_)
-    · rw [ho, ha, List.append_assoc, List.drop_left, List.take_left]
-    · rw [ho, ha]; simp
-    · intro ⟨h1, h2, h3⟩
-      have hD : D = [] := by
-        have : ((D.length : Nat) : Int) = 0 := h1
-        exact List.length_eq_zero_iff.1 (by omega)
-      have : (if D = [] then (P.length : Int) else P.length + 1) = 0 := h2
-      rw [if_pos hD] at this
-      exact hex ⟨hD, List.length_eq_zero_iff.1 (by omega), h3⟩
-    · rw [ho, ha]; simp
-  · have hp0 : h.pos0.toNat = P.length := by rw [hpos]; simp
-    simp only [splice, hp0, ho, hn]
-    rw [ha]
-    simp [List.append_assoc]
-
-theorem oldOf_adds_ctx (first : Line) (A : List Line) :
-    oldOf (A.map (⟨PLUS, ·⟩) ++ [⟨SP, first⟩]) = [first] := by
-  induction A with
-  | nil => rfl
-  | cons x A ih => simp only [List.map_cons, List.cons_append]; rw [oldOf_cons_plus rfl, ih]
-
-theorem newOf_adds_ctx (first : Line) (A : List Line) :
-    newOf (A.map (⟨PLUS, ·⟩) ++ [⟨SP, first⟩]) = A ++ [first] := by
-  induction A with
-  | nil => rfl
-  | cons x A ih => simp only [List.map_cons, List.cons_append]; rw [newOf_cons_plus rfl, ih]
-
-theorem valid_top (first : Line) (t A : List Line) :
-    let h : Hunk := { old := ⟨1, 1⟩, new := ⟨1, A.length + 1⟩,
-                      lines := A.map (⟨PLUS, ·⟩) ++ [⟨SP, first⟩] }
-    Valid (first :: t) 0 0 [h] ∧ splice (first :: t) 0 [h] = A ++ first :: t := by
-  intro h
-  have ho : oldOf h.lines = [first] := oldOf_adds_ctx first A
-  have hn : newOf h.lines = A ++ [first] := newOf_adds_ctx first A
-  have hops : OpsOK h.lines := by
-    intro pl hpl
-    rcases List.mem_append.1 hpl with h | h
-    · obtain ⟨_, _, rfl⟩ := List.mem_map.1 h; right; left; rfl
-    · rw [List.mem_singleton.1 h]; left; rfl
-  have hpos : h.pos0 = ((0 : Nat) : Int) := rfl
-  have hnpos : h.newPos0 = 0 := by
-    show (if (A.length : Int) + 1 = 0 then (1 : Int) + 1 else 1) - 1 = 0
-    rw [if_neg (by omega)]; rfl
-  constructor
-  · refine Valid.cons 0 0 h [] 0 ⟨hops, by rw [ho]; rfl, by rw [hn]; simp; rfl⟩ hpos (Nat.le_refl _)
-      ?_ ?_ (by rw [hnpos]; rfl) ?_ (Valid.nil _ _ ?_)
-    · rw [ho]; rfl
-    · rw [ho]; simp
-    · intro ⟨h1, _, _⟩
-      have : (1 : Int) = 0 := h1
-      omega
-    · rw [ho]; simp
-  · have hp0 : h.pos0.toNat = 0 := rfl
-    simp only [splice, hp0, ho, hn]
-    simp
-
-/-- the hunk list of `diffTrim` as a function of the trimmed pieces -/
-def trimCore (a : List Line) (pre : Nat) (dels adds : List Line) : List Hunk :=
-  if pre = 0 ∧ dels = [] ∧ a ≠ [] then
-    match a with
-    | first :: _ =>
-      [{ old := ⟨1, 1⟩, new := ⟨1, adds.length + 1⟩,
-         lines := adds.map (⟨PLUS, ·⟩) ++ [⟨SP, first⟩] }]
-    | [] => []
-  else
-    [{ old := ⟨if dels = [] then pre else pre + 1, dels.length⟩,
-       new := ⟨if adds = [] then pre else pre + 1, adds.length⟩,
-       lines := dels.map (⟨MINUS, ·⟩) ++ adds.map (⟨PLUS, ·⟩) }]
-
-theorem trimCore_valid (a b P D A S : List Line) (ha : a = P ++ D ++ S) (hb : b = P ++ A ++ S) :
-    Valid a 0 0 (trimCore a P.length D A) ∧ splice a 0 (trimCore a P.length D A) = b := by
-  unfold trimCore
-  split
-  · next hc =>
-    obtain ⟨hP, hD, hne⟩ := hc
-    have hP' : P = [] := List.length_eq_zero_iff.1 hP
-    subst hP' hD
-    simp only [List.nil_append, List.append_nil] at ha hb
-    subst ha
-    cases a with
-    | nil => exact absurd rfl hne
-    | cons first t =>
-      simp only []
-      rw [hb]
-      exact valid_top first t A
-  · next hc =>
-    rw [hb]
-    exact valid_single a P D A S ha (fun ⟨h1, h2, h3⟩ => hc ⟨by rw [h2]; rfl, h1, h3⟩)
-
-/-- both files are `common prefix ++ middle ++ common suffix` -/
-theorem trim_shape (a b : List Line) :
-    let pre := commonPrefixLen a b
-    let a' := a.drop pre
-    let b' := b.drop pre
-    let suf := commonPrefixLen a'.reverse b'.reverse
-    ∃ P S : List Line, P.length = pre ∧
-      a = P ++ a'.take (a'.length - suf) ++ S ∧
-      b = P ++ b'.take (b'.length - suf) ++ S := by
-  intro pre a' b' suf
-  have hle := cpl_le a b
-  have hP : a.take pre = b.take pre := cpl_take a b
-  have hS : a'.drop (a'.length - suf) = b'.drop (b'.length - suf) := by
-    have := cpl_take a'.reverse b'.reverse
-    rw [List.take_reverse, List.take_reverse] at this
-    exact List.reverse_inj.1 this
-  refine ⟨a.take pre, a'.drop (a'.length - suf), by rw [List.length_take]; omega, ?_, ?_⟩
-  · rw [List.append_assoc, List.take_append_drop, List.take_append_drop]
-  · rw [hS, hP, List.append_assoc, List.take_append_drop, List.take_append_drop]
-
-theorem diffTrim_valid (a b : List Line) : Valid a 0 0 (diffTrim a b) ∧ splice a 0 (diffTrim a b) = b := by
-  by_cases hab : a = b
-  · simp only [diffTrim, if_pos hab]
-    exact ⟨Valid.nil _ _ (Nat.zero_le _), by simp [splice, hab]⟩
-  · have e : diffTrim a b = trimCore a (commonPrefixLen a b)
-        ((a.drop (commonPrefixLen a b)).take ((a.drop (commonPrefixLen a b)).length -
-          commonPrefixLen (a.drop (commonPrefixLen a b)).reverse (b.drop (commonPrefixLen a b)).reverse))
-        ((b.drop (commonPrefixLen a b)).take ((b.drop (commonPrefixLen a b)).length -
-          commonPrefixLen (a.drop (commonPrefixLen a b)).reverse (b.drop (commonPrefixLen a b)).reverse)) := by
-      simp only [diffTrim, if_neg hab, trimCore]
-    rw [e]
-    obtain ⟨P, S, hl, ha, hb⟩ := trim_shape a b
-    have key := trimCore_valid a b P _ _ S ha hb
-    rw [hl] at key
-    exact key
-
-end PatchModel.C01
+import PatchModel.Props.C01
